@@ -5,7 +5,8 @@ V = os.path.dirname(os.path.dirname(os.path.dirname(os.path.abspath(__file__))))
 props = [json.loads(l) for l in open(os.path.join(V, 'properties.jsonl'))]
 import glob
 cfg = [json.load(open(f)) for f in sorted(glob.glob(os.path.join(V, 'sim', 'props.d', '*.json')))]
-claimed = {c['id']: c for c in cfg}
+ok = set(open(os.path.join(V, 'sim', 'claimed.txt')).read().split())
+claimed = {c['id']: c for c in cfg if c['id'] in ok}
 NA = {
  'C03': 'pure function of (table, request, matcher, glob flag): no schedule, clock, fault or interleaving to simulate (DESIGN.md section 7); its concurrent aspect is checked under C06',
  'C04': 'pure arithmetic over a weight vector and a single-caller fold over the ring; the under-interleaving share is checked under C06 (DESIGN.md section 7)',
